@@ -185,6 +185,22 @@ impl U {
         true
     }
 
+    /// Move the ledger clock forward to timestamp `t`, letting the matching number of ledgers
+    /// (5 s each) close as far as the harness's advancement budget allows.
+    pub fn advance_to_time(&mut self, t: u64) {
+        let now = self.time();
+        if t > now {
+            let ledgers = ((t - now) / 5).min(3_000_000) as u32;
+            let room = 3_400_000u32.saturating_sub(self.advanced);
+            let d = ledgers.min(room);
+            if d > 0 {
+                self.advanced += d;
+                self.set_seq(self.seq() + d);
+            }
+            self.set_time(t);
+        }
+    }
+
     // ------------------------------------------------------------ checkpoint / restore
 
     fn raw_map(&self) -> StorageMap {
